@@ -814,6 +814,10 @@ def rand_c08(seed, tier, cases=None):
         shapes = _shapes_for(kind)
         out.append(dict(fam="C08", kind=kind, scribble=True, calls=[dict(mtu=40, shape=shapes[(c * 5) % len(shapes)], len=1 + (c * 13) % 120, salt=c % 200) for c in range(250)], **{"class": kind + "_long_run"}))
         out.append(dict(fam="C08", kind=kind, scribble=True, calls=[dict(mtu=11, shape=shapes[-1], len=6000, salt=2), dict(mtu=11, shape="pat", len=6000, salt=3)], **{"class": kind + "_many_fragments"}))
+    # the same access unit (SPS, PPS, slice) again on one H264 payloader while the MTU moves across the size of the STAP-A
+    au = [0, 0, 0, 1, 0x67] + [1 + (i * 7) % 250 for i in range(11)] + [0, 0, 0, 1, 0x68, 9, 8, 7, 6, 5] + [0, 0, 0, 1, 0x65] + [1 + (i * 5) % 250 for i in range(29)]
+    for first, second in ((1200, 16), (16, 1200), (24, 23), (23, 24)):
+        out.append(dict(fam="C08", kind="h264", scribble=True, calls=[dict(mtu=m, shape="raw", len=len(au), salt=0, bytes=au) for m in (first, second, first)], **{"class": "h264_params_again_other_mtu"}))
     # two H264 parameter sets that each fit a 16-bit size field but not together, handed over in separate calls
     for kind in ("h264",):
         mk = lambda t, n: [0, 0, 0, 1, 0x60 | t] + [1 + (i * 7) % 250 for i in range(n - 1)]
@@ -1009,6 +1013,15 @@ def rand_c10(seed, tier, cases=None):
     out.append(dict(fam="C10", kind="payloader", mtu=1200, stapa=True, calls=[dict(units=[sps_big, pps_big, _nal(5, 3, 40, rng)], scs=[4, 4, 4])], **{"class": "giant_parameter_sets"}))
     out.append(dict(fam="C10", kind="payloader", mtu=1200, stapa=True, calls=[dict(units=[sps_big], scs=[4]), dict(units=[pps_big], scs=[4]), dict(units=[_nal(1, 2, 40, rng)], scs=[3])],
                     **{"class": "giant_parameter_sets"}))
+    # the MTU is an argument of every call: the same (and a changed) parameter-set pair again while the MTU moves across the
+    # size of their STAP-A, in both directions
+    for first, second in ((1200, 16), (16, 1200), (1200, 30), (24, 23), (23, 24)):
+        for same in (True, False):
+            sps, pps = _nal(7, 3, 12, rng), _nal(8, 3, 6, rng)
+            sps2, pps2 = (sps, pps) if same else (_nal(7, 3, 12, rng), pps)
+            out.append(dict(fam="C10", kind="payloader", mtu=first, stapa=True,
+                            calls=[dict(units=[sps, pps, _nal(5, 3, 30, rng)], scs=[4, 4, 4], mtu=first), dict(units=[sps2, pps2, _nal(5, 3, 30, rng)], scs=[4, 4, 4], mtu=second),
+                                   dict(units=[sps, pps, _nal(1, 2, 9, rng)], scs=[3, 3, 3], mtu=first)], **{"class": "params_again_other_mtu"}))
     # a unit cut into 800 fragments, and 300 calls on one payloader (parameter sets now and then)
     out.append(dict(fam="C10", kind="payloader", mtu=7, stapa=True, calls=[dict(units=[_nal(5, 3, 4000, rng), _nal(1, 2, 9, rng)], scs=[4, 3])], **{"class": "many_fragments"}))
     for stap in (True, False):
